@@ -76,9 +76,12 @@ pub fn fill(buffer: &mut [u8]) -> bool {
                 buffer[index] = z as u8;
             }
 
-            if buffer.len() == 1524 {
+            // the packet 1 filler request (bytes 8.. of the packet, with or without its last bytes)
+            if buffer.len() >= 1524 && buffer.len() <= 1528 {
                 for &(index, value) in spec.forced_p1.iter() {
-                    buffer[index] = value;
+                    if index < buffer.len() {
+                        buffer[index] = value;
+                    }
                 }
             }
 
